@@ -57,23 +57,28 @@ def run_suite(crates):
         rc, out = sh(cmd, timeout=7200)
         if not os.path.exists(junit):
             return None, out[-1500:]
-        passed = set()
+        passed = set(); ran = set()
         for tc in ET.parse(junit).getroot().iter("testcase"):
             tid = (tc.get("classname") or "") + "::" + (tc.get("name") or "")
+            ran.add(tid)
             if tc.find("failure") is None and tc.find("error") is None and tc.find("flakyFailure") is None: passed.add(tid)
-        return passed, ""
-    passed, note = once("")
-    if passed is None:
+        return (passed, ran), ""
+    res, note = once("")
+    if res is None:
         return None, "no junit produced: " + note
+    passed, ran = res
     want = [t for t in base["stable_pass"] if any(t.startswith(c + "::") for c in crates)]
     # dicom-ul's test_slow_association* have a 100 ms wall-clock tolerance and fail at random on a loaded machine
     want = [t for t in want if "test_slow_association" not in t]
-    missing = [t for t in want if t not in passed]
+    # baseline tests that `-p <crate>` does not build (they need features only the whole-workspace build unifies in)
+    # are not failures of the change: they are counted apart
+    not_built = [t for t in want if t not in ran]
+    missing = [t for t in want if t in ran and t not in passed]
     if missing:
-        p2, _ = once(" --retries 2")
-        if p2 is not None:
-            missing = [t for t in missing if t not in p2]
-    return missing, "%d baseline tests of %s checked" % (len(want), crates)
+        r2, _ = once(" --retries 2")
+        if r2 is not None:
+            missing = [t for t in missing if t not in r2[0]]
+    return missing, "%d baseline tests of %s checked, %d passed, %d not built by -p (feature-gated)" % (len(want), crates, len(want) - len(not_built) - len(missing), len(not_built))
 
 
 def main():
